@@ -329,6 +329,10 @@ def run(ctx: Ctx):
     r_entry(ctx, model)
     r_wrappers(ctx, model)
     r_dtype(ctx, model)
+    from ..sites import no_memoisation
+    ctx.rule("I-fresh: no caching decorator on any function of pygaps.iast., pygaps.modelling.")
+    no_memoisation(ctx, load(ctx.root), "C13", "I-fresh", ('pygaps.iast.', 'pygaps.modelling.'),
+                   "IAST would equate spreading pressures computed for other parameters")
 
 
 META = {
